@@ -105,53 +105,7 @@ Section MergeDec.
       msg_unknown_ok slow md has2 gf u = true -> (length (u ++ tail) < length g)%nat ->
       exists g2, (length tail < length g2)%nat /\
         dm (Datatypes.S d) tid grp g (u ++ tail) (accf, pre) = dm (Datatypes.S d) tid grp g2 tail (accf, pre ++ u).
-    Proof.
-      induction gf as [|x0 gf IH]; intros u g accf pre tail Hok Hg; [discriminate|].
-      destruct u as [|b0 u0].
-      - exists g. cbn [app] in *. rewrite app_nil_r. split; [exact Hg|reflexivity].
-      - cbn [msg_unknown_ok] in Hok.
-        destruct (dec_tag (b0 :: u0)) as [[[num typ] r]|e] eqn:Hdt; [|discriminate].
-        destruct (parse_val default_dep num typ r) as [[w r']|e] eqn:Hpv; [|discriminate].
-        repeat (apply andb_true_iff in Hok; destruct Hok as [Hok ?]).
-        rename H into Hrec. rename H0 into Hlt. rename H1 into Heq2. rename H2 into Heq1. rename H3 into Hrej.
-        rename H4 into Ht4.
-        apply msg_bytes_eqb_eq in Heq2.
-        destruct g as [|x g]; [cbn in Hg; lia|].
-        rewrite (msg_dm_unfold slow S d tid grp md x g ((b0 :: u0) ++ tail) (accf, pre) Hmd).
-        cbn [app]. change (b0 :: u0 ++ tail) with ((b0 :: u0) ++ tail).
-        rewrite (msg_dec_tag_ext _ _ _ _ tail Hdt).
-        replace (msg_max_num <? num) with false by lia.
-        apply negb_true_iff in Ht4. rewrite Ht4. cbv zeta.
-        rewrite msg_rejects_step; [|exact Hrej].
-        unfold msg_unknown. destruct (msg_parse_val_ext _ _ _ _ _ _ tail Hpv) as (w' & Hpv'). rewrite Hpv'.
-        cbn [fst snd].
-        assert (Hlr : (length r' <= length r)%nat).
-        { pose proof (f_equal (@length byte) Heq2) as Hl. rewrite app_length in Hl. lia. }
-        assert (Hq : firstn (length (r ++ tail) - length (r' ++ tail)) (r ++ tail) = firstn (length r - length r') r).
-        { rewrite !app_length. replace (length r + length tail - (length r' + length tail))%nat with (length r - length r')%nat by lia.
-          set (q := firstn (length r - length r') r) in *.
-          assert (Hql : length q = (length r - length r')%nat).
-          { pose proof (f_equal (@length byte) Heq2) as Hl. rewrite app_length in Hl. lia. }
-          rewrite <- Heq2 at 2. rewrite <- app_assoc. rewrite <- Hql. apply msg_firstn_len. }
-        rewrite Hq.
-        assert (Hlen' : (length (r' ++ tail) < length g)%nat).
-        { cbn [length app] in Hg. rewrite !app_length in *. 
-          assert (length r < length (b0 :: u0))%nat by (apply Nat.ltb_lt; exact Hlt). cbn [length] in *. lia. }
-        match goal with |- context [msg_decode_msg _ _ _ _ _ g (r' ++ tail) (accf, ?p)] =>
-          destruct (IH r' g accf p tail Hrec Hlen') as (g2 & Hg2 & E) end.
-        exists g2. split; [exact Hg2|]. rewrite E. f_equal. f_equal.
-        rewrite <- !app_assoc. f_equal.
-        destruct slow; apply msg_bytes_eqb_eq in Heq1.
-        + (* raw tag *)
-          set (t := firstn (length (b0 :: u0) - length r) (b0 :: u0)) in *.
-          assert (Htl : length t = (length (b0 :: u0) - length r)%nat).
-          { pose proof (f_equal (@length byte) Heq1) as Hl. rewrite app_length in Hl. lia. }
-          assert (Ht : firstn (length ((b0 :: u0) ++ tail) - length (r ++ tail)) ((b0 :: u0) ++ tail) = t).
-          { rewrite !app_length. replace (length (b0 :: u0) + length tail - (length r + length tail))%nat with (length t) by lia.
-            rewrite <- Heq1. rewrite <- app_assoc. apply msg_firstn_len. }
-          rewrite Ht, Heq2. exact Heq1.
-        + rewrite Heq2. exact Heq1.
-    Qed.
+    Proof. exact (msg_unknown_loop slow S d tid md grp Hmd). Qed.
 
     (* ---------- one singular scalar ---------- *)
     Lemma msg_mrg_scalar fd sk s accf u tail g :
@@ -252,7 +206,7 @@ Section MergeDec2.
       msg_find_field md (f_num fd) = Some fd -> msg_not_map fd -> card_repeated (f_card fd) = false ->
       1 <= f_num fd -> f_num fd <= msg_max_num ->
       (exists t, f_kind fd = KMsg t \/ f_kind fd = KGrp t) ->
-      msg_typed_elem slow (msg_typed slow S d) fd v = true ->
+      msg_typed_elem slow (msg_enc_body S) (msg_typed slow S d) fd v = true ->
       msg_szok_elem (msg_size_body S) (msg_sizes_ok S) (f_kind fd) v = true ->
       msg_mrg_stmt slow S v ->
       (length (msg_enc_elem eb (f_num fd) (f_kind fd) v ++ tail) < length g)%nat ->
@@ -290,37 +244,63 @@ Section MergeDec2.
         + exists g2. split; [left; reflexivity|]. split; [|split; [exact Hg2|exact E]].
           rewrite Hold in *. cbn [msg_macc_of fst snd] in Hm. exact Hm.
       - (* group *)
-        apply andb_true_iff in Hty. destruct Hty as [Hty Hunk].
-        apply andb_true_iff in Hty. destruct Hty as [Hslow Hty].
-        apply negb_true_iff in Hslow.
-        replace ((enc_tag (f_num fd) 3 ++ eb t (VMsg fs' u') ++ enc_tag (f_num fd) 4) ++ tail)
-          with (enc_tag (f_num fd) 3 ++ (eb t (VMsg fs' u') ++ enc_tag (f_num fd) 4) ++ tail) in *
-          by (rewrite <- !app_assoc; reflexivity).
-        destruct (Hstmt d t Hty Hsz (msg_macc_of (msg_old_value accf (f_num fd))) (f_num fd) (enc_tag (f_num fd) 4 ++ tail)
-                         (x00 :: (eb t (VMsg fs' u') ++ enc_tag (f_num fd) 4) ++ tail))
-          as (m & g1 & Hm & Hg1 & E1); [rewrite <- app_assoc; cbn [length]; lia|].
-        exists (VMsg (fst m) (snd m)), t.
-        destruct (msg_dm_field slow S d tid md grp g (f_num fd) 3 (eb t (VMsg fs' u') ++ enc_tag (f_num fd) 4) tail (accf, u)
-                    (msg_set_field md fd (VMsg (fst m) (snd m)) accf, u) Hmd Hlo Hhi) as (g2 & Hg2 & E);
-          [lia|lia| |exact Hg|].
-        + intros tagraw.
-          rewrite (msg_step_group slow md _ _ fd t (eb t (VMsg fs' u') ++ enc_tag (f_num fd) 4) tail tagraw (accf, u) m);
-            try assumption.
-          * cbn [fst snd]. unfold msg_store_sub. rewrite Hrep. reflexivity.
-          * cbn [fst]. rewrite (msg_old_sub_value fd accf Hrep). rewrite <- app_assoc in E1 |- *. rewrite E1.
-            destruct d as [|d0].
-            -- cbn [msg_typed] in Hty. discriminate.
-            -- destruct (msg_typed_unfold slow S _ t fs' u' Hty) as (d' & md' & Hd' & Hmd' & _).
-               inversion Hd'; subst d'.
-               apply (msg_dm_end_grp slow S d0 t md' (f_num fd) g1 tail m Hmd' Hlo Hhi). lia.
-        + exists g2. split; [right; reflexivity|]. split; [|split; [exact Hg2|exact E]].
-          rewrite Hold in *. cbn [msg_macc_of fst snd] in Hm. exact Hm.
+        apply andb_true_iff in Hty. destruct Hty as [Hty Hscan].
+        destruct slow eqn:Hslow; cbn [negb orb] in Hscan.
+        + (* reflection path: ConsumeGroup, then the content as a message *)
+          unfold msg_group_scans in Hscan.
+          destruct (parse_val default_dep (f_num fd) 3 (eb t (VMsg fs' u') ++ enc_tag (f_num fd) 4)) as [[w [|? ?]]|e] eqn:Hpv;
+            try discriminate.
+          replace ((enc_tag (f_num fd) 3 ++ eb t (VMsg fs' u') ++ enc_tag (f_num fd) 4) ++ tail)
+            with (enc_tag (f_num fd) 3 ++ (eb t (VMsg fs' u') ++ enc_tag (f_num fd) 4 ++ tail)) in *
+            by (rewrite <- !app_assoc; reflexivity).
+          destruct (Hstmt d t Hty Hsz (msg_macc_of (msg_old_value accf (f_num fd))) 0 [] (x00 :: eb t (VMsg fs' u')))
+            as (m & g1 & Hm & Hg1 & E1); [rewrite app_nil_r; cbn [length]; lia|].
+          rewrite app_nil_r in E1.
+          exists (VMsg (fst m) (snd m)), t.
+          destruct (msg_dm_field true S d tid md grp g (f_num fd) 3 (eb t (VMsg fs' u') ++ enc_tag (f_num fd) 4) tail (accf, u)
+                      (msg_set_field md fd (VMsg (fst m) (snd m)) accf, u) Hmd Hlo Hhi) as (g2 & Hg2 & E);
+            [lia|lia| |rewrite <- app_assoc; exact Hg|].
+          * intros tagraw. rewrite <- app_assoc.
+            rewrite (msg_step_group_slow true md _ _ fd t (eb t (VMsg fs' u')) tail tagraw (accf, u) m w eq_refl);
+              try assumption.
+            -- cbn [fst snd]. unfold msg_store_sub. rewrite Hrep. reflexivity.
+            -- cbn [fst]. rewrite (msg_old_sub_value fd accf Hrep). unfold msg_whole. rewrite E1.
+               destruct d as [|d0].
+               ++ cbn [msg_typed] in Hty. discriminate.
+               ++ destruct (msg_typed_unfold true S _ t fs' u' Hty) as (d' & md' & Hd' & Hmd' & _).
+                  rewrite (msg_dm_end0 true S d0 t md' g1 m); [reflexivity| |lia].
+                  inversion Hd'; subst d'. exact Hmd'.
+          * exists g2. split; [right; reflexivity|]. split; [|split; [exact Hg2|rewrite <- app_assoc in E; exact E]].
+            rewrite Hold in *. cbn [msg_macc_of fst snd] in Hm. exact Hm.
+        + (* table-driven path: the same tag loop with the group number *)
+          replace ((enc_tag (f_num fd) 3 ++ eb t (VMsg fs' u') ++ enc_tag (f_num fd) 4) ++ tail)
+            with (enc_tag (f_num fd) 3 ++ (eb t (VMsg fs' u') ++ enc_tag (f_num fd) 4) ++ tail) in *
+            by (rewrite <- !app_assoc; reflexivity).
+          destruct (Hstmt d t Hty Hsz (msg_macc_of (msg_old_value accf (f_num fd))) (f_num fd) (enc_tag (f_num fd) 4 ++ tail)
+                           (x00 :: (eb t (VMsg fs' u') ++ enc_tag (f_num fd) 4) ++ tail))
+            as (m & g1 & Hm & Hg1 & E1); [rewrite <- app_assoc; cbn [length]; lia|].
+          exists (VMsg (fst m) (snd m)), t.
+          destruct (msg_dm_field false S d tid md grp g (f_num fd) 3 (eb t (VMsg fs' u') ++ enc_tag (f_num fd) 4) tail (accf, u)
+                      (msg_set_field md fd (VMsg (fst m) (snd m)) accf, u) Hmd Hlo Hhi) as (g2 & Hg2 & E);
+            [lia|lia| |exact Hg|].
+          * intros tagraw.
+            rewrite (msg_step_group false md _ _ fd t (eb t (VMsg fs' u') ++ enc_tag (f_num fd) 4) tail tagraw (accf, u) m eq_refl);
+              try assumption.
+            -- cbn [fst snd]. unfold msg_store_sub. rewrite Hrep. reflexivity.
+            -- cbn [fst]. rewrite (msg_old_sub_value fd accf Hrep). rewrite <- app_assoc in E1 |- *. rewrite E1.
+               destruct d as [|d0].
+               ++ cbn [msg_typed] in Hty. discriminate.
+               ++ destruct (msg_typed_unfold false S _ t fs' u' Hty) as (d' & md' & Hd' & Hmd' & _).
+                  inversion Hd'; subst d'.
+                  apply (msg_dm_end_grp false S d0 t md' (f_num fd) g1 tail m eq_refl Hmd' Hlo Hhi). lia.
+          * exists g2. split; [right; reflexivity|]. split; [|split; [exact Hg2|exact E]].
+            rewrite Hold in *. cbn [msg_macc_of fst snd] in Hm. exact Hm.
     Qed.
 
     (* ---------- one field with all its values = msg_merge_one ---------- *)
     Lemma msg_mrg_field fd vs accf u tail g :
       msg_find_field md (f_num fd) = Some fd ->
-      msg_typed_field slow (msg_typed slow S d) tv2 has2 fd vs = true ->
+      msg_typed_field slow (msg_enc_body S) (msg_typed slow S d) tv2 has2 fd vs = true ->
       msg_szok_field (msg_size_body S) (msg_sizes_ok S) fd vs = true ->
       Forall (msg_mrg_stmt_deep slow S) vs ->
       (length (msg_enc_field eb fd vs ++ tail) < length g)%nat ->
@@ -340,7 +320,7 @@ Section MergeDec2.
       pose proof (msg_dec_stmt_all slow S) as Hfresh.
       (* singular *)
       assert (Hsingle : forall v c, vs = [v] -> f_card fd = c -> msg_not_map fd -> card_repeated c = false ->
-                msg_typed_elem slow (msg_typed slow S d) fd v = true ->
+                msg_typed_elem slow (msg_enc_body S) (msg_typed slow S d) fd v = true ->
                 (match c, v with CImp, VS s => msg_scalar_is_zero s = false | _, _ => True end) ->
                 forallb (msg_szok_elem (msg_size_body S) (msg_sizes_ok S) (f_kind fd)) vs = true ->
                 (length (flat_map (fun e => msg_enc_elem eb (f_num fd) (f_kind fd) e) vs ++ tail) < length g)%nat ->
@@ -388,7 +368,7 @@ Section MergeDec2.
           rewrite Hm. eexists. exists g2. split; [reflexivity|split; [exact Hg2|exact E]]. }
       (* repeated, expanded *)
       assert (Hexp : msg_not_map fd -> card_repeated (f_card fd) = true ->
-                forallb (msg_typed_elem slow (msg_typed slow S d) fd) vs = true ->
+                forallb (msg_typed_elem slow (msg_enc_body S) (msg_typed slow S d) fd) vs = true ->
                 forallb (msg_szok_elem (msg_size_body S) (msg_sizes_ok S) (f_kind fd)) vs = true ->
                 (length (flat_map (fun e => msg_enc_elem eb (f_num fd) (f_kind fd) e) vs ++ tail) < length g)%nat ->
                 exists g2, (length tail < length g2)%nat /\
@@ -414,7 +394,7 @@ Section MergeDec2.
       - destruct (Hexp ltac:(intros ? ? ?; rewrite Hc; discriminate) ltac:(try rewrite Hc; reflexivity)) as (g2 & Hg2 & E);
           try assumption; [destruct vs; [discriminate|exact Hty]|].
         eexists. exists g2. split; [reflexivity|split; [exact Hg2|exact E]].
-      - assert (Htyv : forallb (msg_typed_elem slow (msg_typed slow S d) fd) vs = true)
+      - assert (Htyv : forallb (msg_typed_elem slow (msg_enc_body S) (msg_typed slow S d) fd) vs = true)
           by (destruct vs; [discriminate|exact Hty]).
         destruct (f_kind fd) as [sk|t|t] eqn:Hk.
         + destruct vs as [|v0 vs']; [discriminate|].
@@ -475,7 +455,7 @@ Section MergeDec3.
     Notation tv2 := (fun t x => match d with O => false | Datatypes.S d1 => msg_typed slow S d1 t x end).
 
     Definition msg_mchunk_good (p : N * list value) : Prop :=
-      msg_typed_chunk slow (msg_typed slow S d) tv2 has2 md p = true /\
+      msg_typed_chunk slow (msg_enc_body S) (msg_typed slow S d) tv2 has2 md p = true /\
       msg_szok_chunk (msg_size_body S) (msg_sizes_ok S) md p = true /\
       Forall (msg_mrg_stmt_deep slow S) (snd p).
 
